@@ -77,15 +77,18 @@ CHECKS = {
     ),
     "C06": dict(
         engine="tlc+replay",
-        technique="TLA+ value-level spec of the convolve-and-contract layer; TLC checks bank invariance and LayerOut(g.x)=g.LayerOut(x) on integer weights/biases/inputs with the library's own bank; the real layer is bound to LayerOut exactly; float metamorphic check with perturbed parameters on the code",
+        technique="TLA+ value-level spec of the convolve-and-contract layer; TLC checks bank invariance and LayerOut(g.x)=g.LayerOut(x) on integer weights/biases/inputs with the library's own bank; the real layer is bound to LayerOut exactly; typing calculus (EquivCalculus.tla) model-checked over every bias-branch configuration and bound to the real layer by executing its data-flow graph; float metamorphic check with perturbed parameters on the code",
         category="model_checking",
         text=("For harness-supplied integer inputs, weights and biases and the library's scale='one' bank, TLC checks as invariants that every "
               "filter is fixed by the listed group elements and that the spec layer commutes with them block by block under the transported "
               "configuration -- all five bias modes, TORUS/SAME/up-sampling (even filter, literal padding, image dilation), filter dilation, "
               "d=2,3, full and subgroup banks; the real ml.ConvContract with those parameters (eqx.tree_at) must equal LayerOut exactly. "
               "Separately (exploration) default normalised banks with weights and biases perturbed off initialisation: layer(g.x) vs "
-              "g.layer(x) for every g of the bank's group and cyclic shifts, per-block relative defect <= 1e-4."),
-        design_ref="DESIGN.md 4 C06",
+              "g.layer(x) for every g of the bank's group and cyclic shifts, per-block relative defect <= 1e-4. "
+              "All-parameters argument: MC_EquivCalculus types the bias branch of every (source, filter, target, mode) configuration as a data-flow "
+              "graph in which parameters enter only through invariant-typed nodes (31 listed non-equivariant deviations are rejected); the graph "
+              "is executed with the real layer's parameter arrays and must reproduce its output, else the equation test is escalated."),
+        design_ref="DESIGN.md 4 C06, 18",
         note="Trusted: TLC/SANY/Json; generic-point argument for the multilinear part; float part is sampling with tolerance (floor RMS 1e-2 on numerically-zero blocks).",
     ),
     "C07": dict(
@@ -103,15 +106,19 @@ CHECKS = {
     ),
     "C08": dict(
         engine="tlc+replay",
-        technique="TLA+ declarative spec of average/max-by-norm pooling and nearest-neighbour unpooling with PoolLaws (commutes with every g and with patch-length shifts) as TLC invariant on integer images, replayed exactly into the pooling functions and the MaxNormPool layer; normalisation / vector-neuron layers checked by a float metamorphic test with random parameters",
+        technique="TLA+ declarative spec of average/max-by-norm pooling and nearest-neighbour unpooling with PoolLaws (commutes with every g and with patch-length shifts) as TLC invariant on integer images, replayed exactly into the pooling functions and the MaxNormPool layer; normalisation / vector-neuron / pooling layers typed by the EquivCalculus.tla data-flow calculus (model-checked; graphs executed against the real layers) and checked by a float metamorphic test with random parameters",
         category="model_checking",
         text=("Pooling part: TLC checks on every supplied integer image (unique per-patch norms by construction; ties make max pooling "
               "unspecified) that AvgPoolNum, Unpool and MaxPoolNorm commute with all elements of B_d and with translations by multiples of "
               "the patch length; geom.average_pool / max_pool, GeometricImage.{average_pool,max_pool,unpool} and ml.MaxNormPool must equal "
               "the spec results exactly (d=2,3, k<=2, q=2,3). Normalisation / nonlinearity part (exploration): GroupNorm, LayerNorm, "
               "VectorNeuronNonlinear, MaxNormPool with all array parameters randomised, default eps, every accepted type incl. pseudo-"
-              "scalars/vectors, group counts, generic/sparse/constant/zero inputs: f(g.x) vs g.f(x) for every g, per-block tolerance."),
-        design_ref="DESIGN.md 4 C08",
+              "scalars/vectors, group counts, generic/sparse/constant/zero inputs: f(g.x) vs g.f(x) for every g, per-block tolerance. "
+              "All-parameters argument: MC_EquivCalculus checks that the data-flow graph of each layer is well typed for every accepted block type "
+              "(and that Cholesky whitening, per-component parameters, a misplaced eps, additive bias / pointwise activation / signed max on "
+              "pseudoscalars are ill typed); harness/equivcalc.py executes each graph with the real layer's parameters and compares with the layer "
+              "(bound => equivariant for every parameter value; unbound => escalated equation test, reported in the evidence)."),
+        design_ref="DESIGN.md 4 C08, 18",
         note="Trusted: TLC/SANY/Json. TLA+ has no sqrt/eigh: the normalisation and vector-neuron equation is sampled on the code (tolerance 1e-4, 2e-3 on the eigh path), not model-checked.",
     ),
     "C09": dict(
@@ -309,7 +316,7 @@ def main():
              "kind_free_text": "TLC 1.8 model checking of the TLA+ modules under spec/, CASE lines (ToJson) replayed into ginjax; recorded traces validated by TLC trace specs"},
         ],
         "checks": checks,
-        "notes": "Specifications: spec/*.tla (vocabulary + machines), spec/mc (MC/GEN instances), spec/trace (trace specs). known_findings.json lists repaired (fixed:) and recorded (known) genuine defects. Specification coverage beyond the listed properties (not registered as property checks): `bin/extra benchmark` -- Benchmark.tla, the ml.benchmark loop, model-checked and trace-validated against recorded real runs (DESIGN 17).",
+        "notes": "Specifications: spec/*.tla (vocabulary + machines), spec/mc (MC/GEN instances), spec/trace (trace specs). known_findings.json lists repaired (fixed:) and recorded (known) genuine defects. Specification coverage beyond the listed properties (not registered as property checks): `bin/extra benchmark` -- Benchmark.tla, the ml.benchmark loop, model-checked and trace-validated against recorded real runs (DESIGN 17); `bin/extra calculus` -- EquivCalculus.tla alone (typing calculus of the equivariant layers' data flow, also embedded in C06 and C08; DESIGN 18).",
         "not_applicable": [{"property_id": p, "reason": NA.get(p, PENDING_REASON)} for p in ALL if p not in CHECKS],
     }
     with open(os.path.join(VERIF, "MANIFEST.json"), "w") as f:
